@@ -2,6 +2,7 @@
 
 P = {
     "id": "C20",
+    "claimed": False,  # flip to True once bin/check is green AND Properties/C20.v has real theorems
     "coq_targets": ["Properties/C20.vo", "Run/Eval_C20.vo"],
     "theorems_module": "Properties.C20",
     "theorems": ["C20_F3_refuted", "C20_F4_refuted"],
